@@ -6,6 +6,8 @@ import JSight.FuelEX
 import JSight.CompileLinksText
 import JSight.E2EThm
 import JSight.CommentExamples
+import JSight.ShortE2EExamples
+import JSight.ShortE2ESide
 /-!
 # C09 — User-type references are resolved completely and recursion is decided correctly
 
@@ -93,6 +95,14 @@ from the compiled tree to the IR of `LK`, `CL.ordOf` the order of the unnamed ty
   `C09_text_level_1302_iff`: the same as one equivalence on the outcome of the whole pipeline.
   The byte offset of the 1302 error (first byte of the node / key holding the reference, in the file of its schema)
   is modelled in the driver (`Drv` `c09b`, part `P`) and tied by `c09-bridge:position`, not proved.
+* `C09_text_level_links` / `C09_text_level_1302` (fifth wave): the two statements above with the load hypotheses
+  DISCHARGED for schema texts whose values are scalars or type shortcuts `@A` / `@A | @B` (root, member values, array
+  items, any nesting and blank layout; added types given as texts of the same class): `C09_text_loads` /
+  `C09_types_load` prove text → compiled tree through the scanner model (`C16_shortcut_events_of_tree`: the exact
+  events of a shortcut in every value position), the loader model (`C16_shortcut_tree_loads`) and `Compile`
+  (`SE.compileNode_nodes`); the class hypothesis `clsSAll` is proved for these trees; the byte-level side conditions of
+  a shortcut are derived from its grammar (`C09_text_ok`). Still hypotheses there: `CL.typeNamesOK` (distinct user
+  type names, decidable) — and texts with annotations / comments / key shortcuts are outside this class.
 
 None of these needs the graph to be ACCEPTED by the recursion check: the code carries a visited set / counter in
 every descent, so termination holds for rejected graphs too (`c09-typegraph` runs Check / Validate / Example under a
@@ -324,5 +334,85 @@ example (doc : List UInt8) :
         [.blank 10] (by simp [Lay.ValidL]) (by simp [Lay.ValidL, Lay.LI.Valid, Lay.isBlankB]) Lay.Ex.cFin Lay.Ex.cFin_ok
       exact E2E.loadSchema_plain _ false st Lay.Ex.tC.value hl hr ht (by decide +kernel))
     (by decide) rfl (by decide +kernel)).1
+
+/-! ### C09 at text level, the load hypothesis discharged (schema texts whose values are type shortcuts)
+
+`SE.BST`: byte-level JSON trees with layout (blank bytes wherever JSON allows them) whose LEAVES are scalars or type
+shortcuts `@name` / `@a | @b …` (root, member value or array item, any nesting); `SE.docText w0 t w1` the text; `SE.cnOf`
+the compiled tree (a shortcut leaf = the `mixed` reference node with the names of its synthesised `type` / `or` rule).
+`SE.TextOK`: blanks around a tree that is valid on byte classes (`SchemaScan.STree.Valid`: scalar / key tokens of the
+scanner's automaton, the shortcut grammar, behind a shortcut leaf a line break, `,`, `]`, `}` or the end of input),
+pairwise distinct keys per object, and the byte-level side conditions `BST.sideOK`: the kind of every scalar can be guessed
+(`BST.guessable`, the decidable hypothesis of `C01_text_level` too) and, for a shortcut, `|` occurs exactly when it has
+alternatives, a single name is a user type name, alternatives give ≥ 2 names — these three FOLLOW from the shortcut
+grammar (`C09_text_ok`). The added types are texts of the same class (plain JSON, shortcuts, or both). -/
+
+/-- a text is of the class as soon as: blanks around, a tree valid on byte classes, behind a root shortcut a line break
+or nothing, every scalar's kind can be guessed, distinct keys -/
+theorem C09_text_ok (w0 : SE.Bytes) (t : SE.BST) (w1 : SE.Bytes) (h0 : SchemaScan.IsWs (SE.clsB w0))
+    (h1 : SchemaScan.IsWs (SE.clsB w1)) (hv : t.cls.Valid) (hf : SchemaScan.Follow t.cls (SE.clsB w1))
+    (hg : t.guessable = true) (hk : t.KeysNodup) : SE.TextOK w0 t w1 :=
+  SE.TextOK.of_guessable w0 t w1 h0 h1 hv hf hg hk
+
+/-- the names a shortcut leaf of `SE.cnOf` refers to are read from the shortcut AS WRITTEN: `[@A]` for `@A`, the names in
+written order for `@A | @B …` (`Compile.shortNames`) -/
+theorem C09_shortcut_names (f : SE.Bytes) (as : List SE.Alt) (sps : SE.Bytes) (hv : (SE.clsSc f as).Valid)
+    (hs : SchemaScan.Len.IsSpTabs (SE.clsB sps)) :
+    SE.namesOf f as sps = Compile.shortNames (!as.isEmpty) (SE.scBytes f as) :=
+  SE.namesOf_eq f as sps hv hs
+
+/-- **text → compiled tree** (scanner model → loader model → constraint constructors → `CompileBasic`) for texts of the
+class: this is the hypothesis `hroot` / `htypes` of `C09_text_level_links_partial`, now a theorem -/
+theorem C09_text_loads (w0 : SE.Bytes) (t : SE.BST) (w1 : SE.Bytes) (h : SE.TextOK w0 t w1) (opt : Bool) :
+    E2E.loadSchema (SE.docText w0 t w1) opt = .ok (some (SE.cnOf opt t)) :=
+  SE.loadSchema_stree w0 t w1 h opt
+
+theorem C09_types_load (tys : List SE.TypeText) (h : SE.TypesOK tys) :
+    E2E.loadTypes (SE.typeTexts tys) = .ok (SE.typesOf tys) :=
+  SE.loadTypes_stree tys h
+
+/-- **C09 at text level**: `C09_text_level_links_partial` with the load hypotheses and the class hypothesis discharged
+for schema TEXTS whose values are scalars or type shortcuts (root and added types): the check stage of the text-level
+pipeline passes iff every referenced name was added and the recursion check passes; otherwise — when a name is
+missing — the WHOLE pipeline answers 1302 whatever the document, and the name `checkN` reports is the first missing
+one in the code's visiting order, referenced and not in the table -/
+theorem C09_text_level_links (w0 : SE.Bytes) (t : SE.BST) (w1 : SE.Bytes) (ht : SE.TextOK w0 t w1)
+    (tys : List SE.TypeText) (htys : SE.TypesOK tys) (hn : CL.typeNamesOK (SE.typeTexts tys) = true)
+    (doc : List UInt8) (opt : Bool) :
+    (Compile.check (SE.cnOf opt t) (SE.typesOf tys) = .ok () ↔
+      LK.Resolved (CL.lkOf (SE.cnOf opt t) (SE.typesOf tys)) ∧
+        TG.check (Compile.tgOf (SE.cnOf opt t) (SE.typesOf tys)) = true) ∧
+    (¬ LK.Resolved (CL.lkOf (SE.cnOf opt t) (SE.typesOf tys)) →
+      ∃ n, CL.firstMissing (SE.typesOf tys) (CL.visitAll (SE.cnOf opt t) (SE.typesOf tys)) = some n ∧
+        LK.Refs (CL.lkOf (SE.cnOf opt t) (SE.typesOf tys)) n ∧ ¬ LK.InTable (CL.lkOf (SE.cnOf opt t) (SE.typesOf tys)) n ∧
+        CL.checkN (SE.cnOf opt t) (SE.typesOf tys) = .error (.missing n) ∧
+        E2E.validateText (SE.docText w0 t w1) (SE.typeTexts tys) doc opt = .schemaErr 1302 0) :=
+  SE.text_level_links_stree w0 t w1 ht tys htys hn doc opt
+
+/-- the same as one equivalence about the outcome of the whole pipeline on TEXTS -/
+theorem C09_text_level_1302 (w0 : SE.Bytes) (t : SE.BST) (w1 : SE.Bytes) (ht : SE.TextOK w0 t w1)
+    (tys : List SE.TypeText) (htys : SE.TypesOK tys) (hn : CL.typeNamesOK (SE.typeTexts tys) = true)
+    (doc : List UInt8) (opt : Bool) :
+    E2E.validateText (SE.docText w0 t w1) (SE.typeTexts tys) doc opt = .schemaErr 1302 0 ↔
+      ¬ LK.Resolved (CL.lkOf (SE.cnOf opt t) (SE.typesOf tys)) :=
+  SE.text_level_1302_iff_stree w0 t w1 ht tys htys hn doc opt
+
+/-! Non-vacuity: root `{"a": @A | @B ,⏎ "b": [@C⏎], "c": 1}`, types `@A` = `1⏎`, `@B` = ` @C` (`SE.Ex`): the compiled
+root is the expected tree (`rfl`), and `@C` is the first missing name. -/
+example (doc : List UInt8) :=
+  C09_text_level_links [] SE.Ex.root [] SE.Ex.root_ok SE.Ex.tys SE.Ex.tys_ok SE.Ex.names_ok doc false
+example (doc : List UInt8) :=
+  C09_text_level_1302 [] SE.Ex.root [] SE.Ex.root_ok SE.Ex.tys SE.Ex.tys_ok SE.Ex.names_ok doc false
+example := C09_text_loads [] SE.Ex.root [] SE.Ex.root_ok false
+example := C09_text_ok [] SE.Ex.root [] (SE.Ex.ws_ok [] rfl) (SE.Ex.ws_ok [] rfl) SE.Ex.root_valid
+  (by intro h; cases h) (by decide +kernel) SE.Ex.root_ok.keys
+example : SE.namesOf [65] [([32], [32], [66])] [32] = ["@A", "@B"] := by
+  have h : (SE.clsSc [65] [([32], [32], [66])]).Valid ∧ SchemaScan.Len.IsSpTabs (SE.clsB [32]) := by
+    simpa [SE.Ex.sAB, SE.BST.cls, SchemaScan.STree.Valid] using SE.Ex.sAB_valid
+  rw [C09_shortcut_names _ _ _ h.1 h.2]
+  rfl
+example := C09_types_load SE.Ex.tys SE.Ex.tys_ok
+example : CL.firstMissing (SE.typesOf SE.Ex.tys) (CL.visitAll (SE.cnOf false SE.Ex.root) (SE.typesOf SE.Ex.tys))
+    = some "@C" := by decide +kernel
 
 end Props.C09
